@@ -24,7 +24,7 @@ git -C $WT diff --name-only | grep -q '\.pxd$' && find $WT/cherab -name '*.pxd' 
 TESTS=$(grep -E "passed|failed" /tmp/ev_tests_$TAG.log | tail -1 | tr ' ' '_')
 mkdir -p $EV
 rsync -a --delete --exclude .git --exclude replays --exclude seeded "$D"/ $EV/
-grep -rl "/repo" $EV/harness $EV/setup.sh 2>/dev/null | xargs -r sed -i "s#/repo#$WT#g"
+grep -rl "/repo" $EV/harness $EV/setup.sh 2>/dev/null | xargs -r sed -i -E "s#/repo([^a-zA-Z0-9_]|$)#$WT\\1#g"
 cd $EV
 timeout 3000 env PYTHONPATH=/root/wtsite CHERAB_WT=$WT VERIF_SEED=${VERIF_SEED:-0} ./check $P --tier $TIER > /tmp/ev_out_$TAG.log 2>&1
 RC=$?
